@@ -9,3 +9,9 @@ import VProps.C04
 #print axioms V.C04.identity_of_accepted
 #print axioms V.C04.tamper_redactable_same_identity
 #print axioms V.C04.same_redaction_same_identity_intact
+#print axioms V.C04.refuses_repeated_member
+#print axioms V.C04.refuses_field_variant
+#print axioms V.C04.keep_names_no_variant
+#print axioms V.C04.accepted_keys_nodup
+#print axioms V.C04.accepted_no_variant
+#print axioms V.C04.accessors_read_exact_members
